@@ -1213,6 +1213,9 @@ func (s *ExpressionTreeTranslator) rewriteBinaryExpression(newExpression *pgsql.
 			}
 		}
 
+		// Anything that is not a property lookup (id(n) is null, n is null, ...) keeps its plain form
+		s.PushOperand(newExpression)
+
 	case pgsql.OperatorIsNot:
 		switch typedLOperand := newExpression.LOperand.(type) {
 		case *pgsql.BinaryExpression:
@@ -1227,6 +1230,9 @@ func (s *ExpressionTreeTranslator) rewriteBinaryExpression(newExpression *pgsql.
 				}
 			}
 		}
+
+		// Anything that is not a property lookup (id(n) is null, n is null, ...) keeps its plain form
+		s.PushOperand(newExpression)
 
 	case pgsql.OperatorIn:
 		if isKnownEmptyArrayExpression(newExpression.ROperand) {
